@@ -68,7 +68,7 @@ Definition op_wnows (o : op) : list time :=
   match o with
   | DeleteTopic _ w | CreateSub _ _ w | UpdateSub _ _ w | DeleteSub _ w | ModAck _ _ _ w
   | Ack _ _ w | Pull _ _ _ _ w _ _ | SeekTime _ _ w | SeekSnap _ _ w
-  | CreateSnap _ _ _ _ w | StreamAckNack _ _ w _ _ | Job _ _ _ _ w _ => [w]
+  | CreateSnap _ _ _ _ w | StreamAckNack _ _ w _ _ | Job _ _ _ _ _ w _ => [w]
   | Publish _ ms _ => map pm_now ms
   | _ => []
   end.
